@@ -405,6 +405,12 @@ def spec_read_baseband(c, self, offset, n, lock=None, **kwargs):
     if g["kind"] == "real":
         rows = A.getitem(ctx, raw, SSlice(V.mul(2, offset), V.add(V.mul(2, offset), V.mul(2, n)), None))
         z = c.call("pulsarbat.utils.real_to_complex", SArr(rows.shape, rows.elem, rows.dtype, "numpy"), axis=0)
+        # position-faithful (statement): the mixer phase belongs to the absolute raw sample index 2*offset + j,
+        # so the conversion of a chunk that starts at an odd offset carries the factor exp(-i pi offset) = -1
+        odd = V.eq(V.mod_int(ctx, offset, 2), 1)
+        z0 = z
+        z = SArr(z0.shape, lambda ix: Cx(V.Ite(odd, V.neg(Cx.of(z0.elem(ix)).re), Cx.of(z0.elem(ix)).re),
+                                        V.Ite(odd, V.neg(Cx.of(z0.elem(ix)).im), Cx.of(z0.elem(ix)).im)), z0.dtype, "numpy")
     else:
         rows = A.getitem(ctx, raw, SSlice(offset, V.add(offset, n), None))
         z = SArr(rows.shape, rows.elem, rows.dtype, "numpy")
